@@ -953,6 +953,24 @@ func exactPair(add, dbl string) bool {
 	return hi-lo <= 52
 }
 
+// Pairs whose costs differ by far less than 1 (both weights tiny) or, scaled up, by far less than the costs
+// themselves: `cost < mincost` must be an exact comparison, not one with an absolute or relative tolerance.
+// All exactly representable; exactPair holds for each.
+var scalePairs = [][2]string{
+	{"0.000000000931322574615478515625", "0.000000000931322574615478515625"},                    // 2^-30, 2^-30
+	{"0.000000000931322574615478515625", "0.00000000186264514923095703125"},                     // 2^-30, 2^-29
+	{"0.00000000186264514923095703125", "0.000000000931322574615478515625"},                     // 2^-29, 2^-30
+	{"0.0000000000009094947017729282379150390625", "0.00000000000136424205265939235687255859375"}, // 2^-40, 3*2^-41
+	{"0.00000000000136424205265939235687255859375", "0.0000000000009094947017729282379150390625"}, // 3*2^-41, 2^-40
+	{"1099511627776", "1099512676352"}, // 2^40, 2^40+2^20
+	{"1099512676352", "1099511627776"},
+}
+
+// targets on which the ensemble's results have different costs
+var scaleTargets = []string{"23", "255", "367", "2^64-59", "2^127-3"}
+
+func n64(e string) bool { return strings.Contains(e, "^") }
+
 func extPairs() [][2]string {
 	var out [][2]string
 	for _, a := range weightSetExt {
@@ -1113,6 +1131,22 @@ func gen(tier string, r *lib.Rand, emit func(string)) {
 				specs = append(specs, spec{e, pSet[k%len(pSet)], ad[0], ad[1]})
 				k++
 			}
+		}
+	}
+	for i, e := range scaleTargets {
+		for j, ad := range scalePairs {
+			if !exactPair(ad[0], ad[1]) {
+				panic("harness: scalePairs entry is not exact")
+			}
+			if quick && n64(e) && j != 0 && j != 3 && j != 5 {
+				continue // every pair on the small targets, one of each kind on the expensive targets
+			}
+			pp := pSet[k%len(pSet)]
+			if quick && n64(e) {
+				pp = 16 + 48*((i+j)%2) // keep the expensive targets parallel in the quick tier
+			}
+			specs = append(specs, spec{e, pp, ad[0], ad[1]})
+			k++
 		}
 	}
 	// (b) structured shapes
